@@ -219,7 +219,9 @@ def _url_files(n1, n2, b1, b2, tname):
                   _choice.apply(lambda t: f"type {t}", tname), "integer :: init", "contains", "procedure :: run", "end type",
                   # a second type re-using a component name (numbered `init~2`) next to components spelled like numbered names
                   "type pt", "integer :: init", "integer :: init2", "integer :: init_2", "contains", "procedure :: run", "procedure :: run2 => run",
-                  "end type",
+                  "generic :: gen => run", "generic :: operator(+) => run2", "end type",
+                  # an extension inherits the bindings (generic ones too): they are shown on ITS page
+                  "type, extends(pt) :: pt3", "integer :: z", "end type pt3",
                   "interface operator(+)", "module procedure run", "end interface", "interface operator(==)", "module procedure run", "end interface",
                   "interface operator(=)", "module procedure run", "end interface", "interface assignment(=)", "module procedure run", "end interface",
                   "interface operator(<)", "module procedure run", "end interface", "interface operator(<=)", "module procedure run", "end interface",
@@ -281,6 +283,27 @@ def _page_files(p):
     return res
 
 
+def _shown_on(p):
+    """(type, item shown on the type's page, URL of the item, is the item listed by the type whose page its URL names?) for the components and
+    bindings (own and inherited) of every type.  An inherited item that is the parent's own object links to the parent's page, where it is listed;
+    a copy made for the extending type must link to the extending type's page"""
+    out = []
+    owners = {}
+    for t in p.types:
+        owners[str(t.get_url())] = t
+    for t in p.types:
+        for c in list(getattr(t, "variables", []) or []) + list(getattr(t, "boundprocs", []) or []):
+            cu = c.get_url()
+            o = owners.get(str(cu).split("#")[0]) if cu is not None and not isinstance(cu, _CV) else None
+            listed = o is not None and any(c is x for x in list(getattr(o, "variables", []) or []) + list(getattr(o, "boundprocs", []) or []))
+            out.append((t, c, cu, listed or isinstance(cu, _CV)))
+    return out
+
+
+def _on_its_page(item_url, listed):
+    return item_url is not None and bool(listed)
+
+
 def _describe(e):
     par = getattr(e, "parent", None)
     return f"{type(e).__name__}:{getattr(par, 'name', '')}/{getattr(e, 'name', '')}"
@@ -304,6 +327,9 @@ def replay_urls(w):
     for e, url, outfile in _page_files(p):
         if outfile != "/out/" + str(url):
             dup.append((str(url), _describe(e), "page written to " + outfile))
+    for t, c, cu, listed in _shown_on(p):
+        if not _on_its_page(cu, listed):
+            dup.append((str(cu), _describe(c), f"is shown on the page of {t.name}, but the page its URL names does not list it"))
     anchors = [(e, getattr(e, "parent", None), e.anchor) for e in ents if getattr(e, "parent", None) is not None]
     for i in range(len(anchors)):
         for j in range(i):
@@ -346,11 +372,14 @@ def urls(ctx):
         E.assume(_choice.apply(lambda a, t: a.lower() != t.lower(), n1, tn))
         E.e.snapshot = lambda m: {"slots": [_choice.value_in_model(m, x) for x in (n1, n2, b1, b2, tn)]}
         with contextlib.redirect_stdout(io.StringIO()), contextlib.redirect_stderr(io.StringIO()):
-            urls_, anchors, pagefiles = _parserh.project(_url_files(n1, n2, b1, b2, tn), post=lambda p: (
+            urls_, anchors, pagefiles, shown = _parserh.project(_url_files(n1, n2, b1, b2, tn), post=lambda p: (
                 [(e, e.get_url()) for e in _all_entities(p)],
                 [(e, getattr(e, "parent", None), e.anchor) for e in _all_entities(p) if getattr(e, "parent", None) is not None],
-                _page_files(p)), post_modules=(__import__("ford.output").output,), **PSET10)
+                _page_files(p), _shown_on(p)), post_modules=(__import__("ford.output").output,), **PSET10)
         E.reachable("urls")
+        # the URL of a component / binding (own or inherited) is an anchor of the page of the type that shows it
+        for t, c, cu, listed in shown:
+            E.require(_on_its_page(cu, listed), "the URL of an item shown on a type's page names a page that does not list the item")
         # the file a page is written to is the file its entity's URL names
         for e, url, outfile in pagefiles:
             E.require(_choice.apply(lambda u, f: f == "/out/" + u, url, outfile), "an entity's page is written to another file than its URL names")
